@@ -44,6 +44,8 @@ impl Callable for Procedure {
         };
         // save the return value
         let cached_return_value = interpreter.return_value.clone();
+        // the callee starts without a pending return value of its caller
+        interpreter.return_value = None;
 
         // todo: consider allowing variables to be taken into context
         // ignore the global env
